@@ -61,6 +61,9 @@ def plan(tier, seed):
         cases.append(dict(key=f"condensed-bulk-history/{fk}", kind="ni-bulk", fk=fk, seed=seed, cost=10))
         cases.append(dict(key=f"condensed-tangent/{fk}", kind="ni-tangent", fk=fk, seed=seed, cost=5))
         cases.append(dict(key=f"condensed-history-material/{fk}", kind="ni-statevars", fk=fk, seed=seed, cost=8))
+    # (c) on the serendipity families, whose mixed containers pair the quadratic displacements with cell-wise constant duals
+    for fk in ("ps", "axi", "3d"):
+        cases.append(dict(key=f"condensed-quadratic/{fk}", kind="ni-quadratic", fk=fk, seed=seed, cost=12 if fk == "3d" else 5))
     for fam in ("quad", "hexahedron", "quad9"):
         for n in (2, 3, 4, 5) if fam != "hexahedron" else (2, 3, 4):
             cases.append(dict(key=f"uniform/{fam}/n={n}", kind="uniform", fam=fam, n=n, seed=seed, cost=4))
@@ -368,6 +371,41 @@ def run(case):
             c.cmp(f"substep{s_}/converged/J", "converged volume ratios", la[-1][2], lb[-1][2], 1e-7)
             c.cmp(f"substep{s_}/converged/p", "converged pressures", 1 + la[-1][1] / max(case["bulk"], 1), 1 + lb[-1][1] / max(case["bulk"], 1), 1e-7)
         return c.result(dict(case=case["key"], iterations=cnt_c, cells=int(mesh.ncells)))
+    if kind == "ni-quadratic":
+        fk = case["fk"]
+        if fk == "3d":
+            mesh = fem.Cube(n=(3, 2, 2)).add_midpoints_edges()
+            region = fem.RegionQuadraticHexahedron(mesh)
+            F = fem.Field
+        else:
+            mesh = fem.Rectangle(a=(0.0, 0.4 if fk == "axi" else 0.0), b=(1.0, 1.4 if fk == "axi" else 1.0), n=(4, 3)).add_midpoints_edges()
+            region = fem.RegionQuadraticQuad(mesh)
+            F = fem.FieldAxisymmetric if fk == "axi" else fem.FieldPlaneStrain
+        kw = dict(axisymmetric=True) if fk == "axi" else (dict(planestrain=True) if fk == "ps" else {})
+        bulk = 50.0
+        fc = fem.FieldContainer([F(region, dim=mesh.dim)])
+        fm = fem.FieldsMixed(region, n=3, **kw)
+        for i_ in (1, 2):
+            c.trans += 1
+            if fm[i_].values.shape[0] != mesh.ncells:
+                c.bad(f"dual-unknowns/field{i_}", "number of unknowns of the dual field of the explicit formulation (one per cell: cell-wise constant p, J)", int(fm[i_].values.shape[0]), int(mesh.ncells), 0)
+        bc = fem.SolidBodyNearlyIncompressible(fem.NeoHooke(mu=1.0), fc, bulk=bulk)
+        bm = fem.SolidBody(fem.NearlyIncompressible(fem.NeoHooke(mu=1.0), bulk=bulk), fm)
+        out = {}
+        for tag, field, body in (("c", fc, bc), ("m", fm, bm)):
+            bounds, lc = fem.dof.uniaxial(field, clamped=True, move=-0.15, axis=0, sym=(False, True, False)[: mesh.dim] + (False,) * (3 - mesh.dim))
+            res = fem.newtonrhapson(items=[body], x0=field, dof0=lc["dof0"], dof1=lc["dof1"], ext0=lc["ext0"], tol=1e-11, verbose=False)
+            c.trans += res.iterations
+            if tag == "c":
+                out[tag] = (res.x[0].values.copy(), body.results.state.p.copy().ravel(), body.results.state.J.copy().ravel())
+            else:
+                out[tag] = (res.x[0].values.copy(), res.x[1].values.ravel().copy(), res.x[2].values.ravel().copy())
+        if out["m"][1].size == out["c"][1].size:
+            c.cmp("converged/u", "converged displacements: condensed body vs explicit (u, p, J) formulation on serendipity cells", out["c"][0], out["m"][0], 1e-8)
+            c.cmp("converged/J", "converged volume ratios", out["c"][2], out["m"][2], 1e-7)
+            c.cmp("converged/p", "converged pressures", 1 + out["c"][1] / bulk, 1 + out["m"][1] / bulk, 1e-7)
+        c.outcomes.add("serendipity-constant-duals")
+        return c.result(dict(case=case["key"], cells=int(mesh.ncells)))
     if kind == "ni-inplace":
         fk = case["fk"]
         if fk == "3d":
